@@ -3,6 +3,7 @@ import ComposeVerif.Model.ShortTransform
 import ComposeVerif.Model.ShortDecode
 import ComposeVerif.Model.ShortMerge
 import ComposeVerif.Spec.Short
+import ComposeVerif.Spec.ShortShell
 /-! line-protocol ops for C03: short-syntax parsers, `transform.Canonical`, decoders, and the grammar specs -/
 open Lean
 namespace CV.Ops.C03
@@ -65,7 +66,8 @@ def decodeOp : Handler := fun args =>
       | "Options" => some (decodeOptions v)
       | "DeviceCount" => some (decodeDeviceCount v)
       | "UlimitsConfig" => some (decodeUlimit v)
-      | "ShellCommand" => (match v with | .str _ => none | v => some (decodeShellCommandList v))
+      | "ShellCommand" => some (decodeShellCommand v)
+      | "SSHConfig" => some (decodeSSHConfig v)
       | _ => none
     match r with
     | none => Json.mkObj [("bad", "type")]
@@ -128,6 +130,26 @@ def devSpecOp : Handler := fun args =>
   let (s, d, p) := a.long
   Json.mkObj [("wf", Json.bool a.wf), ("rendered", str a.render), ("long", Json.mkObj [("source", str s), ("target", str d), ("permissions", str p)])]
 
+def shSpecOf (j : Json) : ShSpec :=
+  let segOf (g : Json) : ShSeg :=
+    let t := (getStr g "s").toList
+    match getStr g "k" with
+    | "sq" => .sq t
+    | "dq" => .dq t
+    | "esc" => .esc (t.headD 'x')
+    | _ => .plain t
+  let arr (j : Json) (k : String) : List Json := match j.getObjVal? k with | .ok (.arr a) => a.toList | _ => []
+  { words := (arr j "words").map fun w => { sep := (getStr w "sep").toList, segs := (arr w "segs").map segOf }
+    trail := (getStr j "trail").toList }
+
+/-- the shell-words grammar: render / long of the AST, and the model's `shellParse` of the rendered line -/
+def shellSpecOp : Handler := fun args =>
+  let a := shSpecOf (getObj args "ast")
+  Json.mkObj [("wf", Json.bool a.wf), ("rendered", str a.render), ("long", Json.arr (a.long.map fun w => str w).toArray),
+    ("model", match shellParse a.render with
+      | some l => Json.arr (l.map fun w => str w).toArray
+      | none => Json.null)]
+
 /-- `tree.Path.Next`: the shared model `TPath.next` and the kernel-reducible `TPath.nextK` side by side -/
 def pathNextOp : Handler := fun args =>
   let p : TPath := match getStrList args "p" with | [] => TPath.root | l => l
@@ -165,6 +187,7 @@ def handlers : List (String × Handler) := [
   ("c03.pathNext", pathNextOp),
   ("c03.parseVolume", parseVolumeOp), ("c03.parsePort", parsePortOp), ("c03.canonical", canonicalOp),
   ("c03.canonical2", canonical2Op), ("c03.decode", decodeOp), ("c03.pathClean", pathCleanOp), ("c03.validIP", validIPOp),
-  ("c03.portSpec", portSpecOp), ("c03.volSpec", volSpecOp), ("c03.devSpec", devSpecOp)]
+  ("c03.portSpec", portSpecOp), ("c03.volSpec", volSpecOp), ("c03.devSpec", devSpecOp),
+  ("c03.shellSpec", shellSpecOp)]
 
 end CV.Ops.C03
